@@ -2722,6 +2722,14 @@ Proof.
     rewrite Hfr2, Hh1. cbn. rewrite Hh0. reflexivity.
 Qed.
 
+(* a value without frame references reads back unchanged after ANY frame reset: what a promotion that looks at
+   the box only (HostHandle::promote) relies on for the contents of a persistent record *)
+Lemma nf_survives_reset_lemma : forall h v x m, erase h v = Some x -> vall nf v ->
+  erase (frame_reset h m) v = Some x.
+Proof.
+  intros h v x m He Hnf. unfold frame_reset. eapply erase_hext; [apply (hext_set_frame_nf h)|exact Hnf|exact He].
+Qed.
+
 (* ------------------------------------------------------------------ *)
 (* the source as it is today (flags regenerated by translator/gen_mem.py) *)
 Require Import NS.theories.GenMem NS.theories.MemSrc.
